@@ -692,7 +692,7 @@ class Check(PropertyCheck):
     def oracle(self, case, obs):
         kind = case["kind"]
         if kind == "table":
-            return [f"prettify_message returns text that did not pass escape_control_characters: {r}" for r in obs["raw"][:2]]
+            return []        # a raw return breaks `prettify_returns_escaped`; the failing rendering itself is what gets reported
         if kind == "https":
             # record-level reading of "re-encoding ... yields ... the same ... records": rdata the HTTPS decoder accepts must be
             # restored by to_json -> from_json -> pack
